@@ -682,7 +682,18 @@ def _seq_of_stmt(model, fi, st, lst):
     return ''
 
 
-RULES = [rule_eval, rule_keyerror, rule_shapes]
+def _inl(rule):
+    """Run a rule on the view in which helpers that are new w.r.t. the
+    reference tree are inlined at their call sites (normalise.N2)."""
+    def run(model):
+        return rule(model.inlined_view())
+    run.__name__ = rule.__name__
+    return run
+
+
+INLINED_VIEW = False
+RULES_PLAIN = [rule_eval, rule_keyerror, rule_shapes]
+RULES = [_inl(r_) for r_ in RULES_PLAIN] if INLINED_VIEW else RULES_PLAIN
 EXPLANATION = (
     'Path-sensitive interpretation of one iteration of the condition loop '
     '(evaluation count, cache-store-before-body, no back edge after a body, '
